@@ -1116,6 +1116,10 @@ class AstEval:
         for dec_func in reversed(decorators):
             cls = await self.call_func(dec_func, None, cls)
         sym_table_assign[arg.name].set(cls)
+        if sym_table_assign is self.global_sym_table:
+            # global variables hold the class itself (the wrapper is only needed by the
+            # class's own methods, which captured it while the class body ran)
+            sym_table_assign[arg.name] = cls
 
     async def ast_functiondef(self, arg, async_func=False):
         """Evaluate function definition."""
